@@ -89,7 +89,7 @@ class FuncCtx:
     def defs(self, node, name):
         """definitions of `name` visible at CFG node `node`: list of (ctx, def_cfg_node, value)"""
         if name in self.locals and name not in self.nonlocals:
-            return [(self, d, v) for (d, v) in self.cfg.defs_reaching(node, name)]
+            return [(self, d, v) for (d, v) in self.cfg.defs_reaching(node, name) if not self._none_def_excluded(d, v, node, name)]
         if self.parent:
             dn = self.def_node_in_parent()
             if dn is not None:
@@ -105,9 +105,65 @@ class FuncCtx:
                 return got + later
         return []
 
+    def _none_def_excluded(self, d, v, use, name):
+        """a binding `name = None` cannot be what `use` sees if every path from it to `use` leaves a test of `name` by the edge on
+        which `name` is not None / truthy (`x = None ... if x is None: return ... use(x)`)"""
+        if not (isinstance(v, ast.Constant) and v.value is None):
+            return False
+        edges = set()
+        for t in self.cfg.nodes:
+            if t.kind != 'test':
+                continue
+            a = t.ast
+            lab = None
+            if isinstance(a, ast.Name) and a.id == name:
+                lab = True
+            elif isinstance(a, ast.Compare) and len(a.ops) == 1 and isinstance(a.left, ast.Name) and a.left.id == name \
+                    and isinstance(a.comparators[0], ast.Constant) and a.comparators[0].value is None:
+                lab = True if isinstance(a.ops[0], (ast.IsNot, ast.NotEq)) else (False if isinstance(a.ops[0], (ast.Is, ast.Eq)) else None)
+            if lab is not None:
+                edges.add((t.id, lab))
+        if not edges:
+            return False
+        redefs = {n.id for n in self.cfg.nodes if n is not d and any(nm == name for (nm, _) in self.cfg.defs_of(n))}
+        seen, todo = set(), [s for (s, l) in d.succ if l != 'exc']
+        while todo:
+            n = todo.pop()
+            if n.id in seen or n.id in redefs:
+                continue
+            seen.add(n.id)
+            if n is use:
+                return False
+            for (m, l) in n.succ:
+                if l == 'exc' or (n.id, l) in edges:
+                    continue
+                todo.append(m)
+        return use.id not in seen
+
+    @staticmethod
+    def _alternatives(v):
+        """a conditional value is any of its alternatives: `a if t else b`, object-valued `a or b`"""
+        alts = [v]
+        k = 0
+        while k < len(alts):
+            a_ = alts[k]
+            if isinstance(a_, ast.IfExp):
+                alts[k:k + 1] = [a_.body, a_.orelse]
+            elif isinstance(a_, ast.BoolOp) and isinstance(a_.op, ast.Or) and all(isinstance(x, (ast.Name, ast.Attribute, ast.Call, ast.Subscript)) for x in a_.values):
+                alts[k:k + 1] = list(a_.values)
+            else:
+                k += 1
+        return alts
+
     def sources(self, node, expr, depth=0, seen=None):
         """follow plain name copies back to terminals"""
         seen = seen if seen is not None else set()
+        alts = self._alternatives(expr)
+        if len(alts) > 1:
+            out = []
+            for a_ in alts:
+                out += self.sources(node, a_, depth, seen)
+            return out
         if isinstance(expr, ast.Name):
             ds = self.defs(node, expr.id)
             if not ds:
@@ -119,10 +175,11 @@ class FuncCtx:
                     continue
                 seen.add(key)
                 if isinstance(v, ast.AST):
-                    if isinstance(v, ast.Name):
-                        out += cx.sources(dn, v, depth + 1, seen)
-                    else:
-                        out.append(Src('expr', v, cx, dn))
+                    for a_ in self._alternatives(v):
+                        if isinstance(a_, ast.Name):
+                            out += cx.sources(dn, a_, depth + 1, seen)
+                        else:
+                            out.append(Src('expr', a_, cx, dn))
                 elif isinstance(v, tuple):
                     if v[0] == 'param':
                         out.append(Src('param', v[1], cx, dn))
